@@ -24,6 +24,7 @@ EXPLANATION = (
     "the same n as n_jobs. Byte identity across worker counts and equality with in-memory destriping are NOT decided."
     ' (as built) sync provenance follows views of a single per-batch read; the mute may multiply the voltage traces inside the concatenation; the kept range may be held in a slice object built from is_first / is_last flags; one seek shared by all workers is evaluated for worker 0 and worker i.'
     " (D1 as built) the batch loop is modelled as a schedule (start, stride, bound) whether written as `while True` with a break or as `for first_s in range(start, stop, stride)`; the bound must be max_s - 2*TAPER with max_s = ns for the worker that the fan-out's own count designates as last; seeks are keyed by the file a handle was opened on."
+    ' (D5) every free variable of the worker (symtable of the enclosing function) is bound by the enclosing function whenever the worker reads it: path condition of the read and of the launch entail the disjunction of the path conditions of the bindings; a resource held as `x = r if option else None` is looked into only under that option. (D6) the batch stride is positive: a constant for the default batch size, and for a caller-supplied nbatch established by an assert / raise guard that precedes the worker.'
     ' (D1 batch ownership) when worker i starts at batch P[i] of a partition vector built in the enclosing function, it must go on exactly while its next start is below stride * P[i + 1] (the last worker until a batch reaches the end).'
 )
 ASSUMPTIONS = [
@@ -775,6 +776,143 @@ def d4_fanout(ctx):
         ctx.check(okpad, worker, pad[0], pad[0], "padding samples are appended only after the last batch of the file", "padding can be written in the middle of the file", key="padding")
 
 
+def _launch_stmt(outer, fan):
+    par = {}
+    for n in ast.walk(outer.node):
+        for c in ast.iter_child_nodes(n):
+            par[c] = n
+    st = fan
+    while not isinstance(st, ast.stmt):
+        st = par[st]
+    return st
+
+
+def d5_closure(ctx):
+    ctx.rule("D5", "every variable the worker reads from the enclosing function is bound on each path that launches it, under the conditions of the read")
+    from sa.closure import binding_gaps
+    repo = ctx.repo
+    outer, worker, fan = _worker(repo)
+    gaps, analysed = binding_gaps(outer.node, worker.node, _launch_stmt(outer, fan), outer.file)
+    nread = sum(a[1] for a in analysed)
+    if len(analysed) < 10:
+        raise AnalysisError(f"{worker.qualname}: only {len(analysed)} free variables found (expected the batch constants, tables and files of the enclosing function)")
+    bad = {}
+    for v, r, W, D in gaps:
+        bad.setdefault(v, []).append((r, W, D))
+    for v, n, nb in analysed:
+        g = bad.get(v)
+        ctx.check(not g, worker, g[0][0] if g else worker.node, f"`{v}`: {n} reads, bound {nb if isinstance(nb, str) else str(nb) + ' time(s)'} in the enclosing function",
+                  "a free variable of the worker is bound whenever the worker reads it",
+                  (f"`{v}` is read by the worker under condition [{g[0][1]}] but bound by the enclosing function only under [{g[0][2]}]: with that option off the worker raises "
+                   f"NameError (cannot access free variable) before the first batch - no output is produced") if g else "", key=f"free:{v}", name_free=True)
+    ctx.note(f"{len(analysed)} free variables, {nread} reads related to their bindings")
+    from sa.closure import optional_resource_gaps
+    ogaps, oan = optional_resource_gaps(worker.node)
+    obad = {}
+    for v, r, W, D in ogaps:
+        obad.setdefault(v, []).append((r, W, D))
+    for v, n, cond in oan:
+        g = obad.get(v)
+        ctx.check(not g, worker, g[0][0] if g else worker.node, f"`{v}` is None unless [{cond}]: {n} uses look into it",
+                  "a resource that exists only with an option is used only with that option",
+                  (f"`{v}` is None unless [{g[0][2]}] but is indexed / dereferenced under [{g[0][1]}]: with the option off the worker raises TypeError "
+                   "('NoneType' object ...) in its first batch - no output is produced") if g else "", key=f"optional:{v}", name_free=True)
+
+
+def d6_progress(ctx):
+    ctx.rule("D6", "the batch loop advances: the stride NBATCH - 2*TAPER is positive for every accepted batch size")
+    repo = ctx.repo
+    outer, worker, fan = _worker(repo)
+    lp = _loop(worker)
+    wdef = next((s for s in outer.node.body if s is worker.node), None)
+    results = []
+    for given in (True, False):
+        facts = Facts()
+
+        def assume(t, given=given):
+            if isinstance(t, ast.Name) and t.id == "nbatch":
+                return given
+            if isinstance(t, ast.Name) and t.id in ("nprocesses", "nc_out", "compute_rms"):
+                return True
+            return None
+        ev = Evaluator(facts=facts, resolve=lambda e: repo.resolve_expr(outer, e), assume=assume)
+        sx = SymExec(ev, on_undecided="havoc")
+        guards = []   # (polynomial P, strict) : P > 0 (strict) or P >= 0 holds when the worker is launched
+        for s in outer.node.body:
+            if s is wdef:
+                break
+            if isinstance(s, ast.Expr) and isinstance(s.value, ast.Constant):
+                continue
+            tests = []
+            if isinstance(s, ast.Assert):
+                tests = conjuncts(s.test, True)
+            elif isinstance(s, ast.If) and not s.orelse and s.body and isinstance(s.body[-1], ast.Raise):
+                tests = conjuncts(s.test, False)
+            for t, pol in tests:
+                if not (isinstance(t, ast.Compare) and len(t.ops) == 1 and isinstance(t.ops[0], (ast.Lt, ast.LtE, ast.Gt, ast.GtE))):
+                    continue
+                try:
+                    l_, r_ = ev.ev(t.left), ev.ev(t.comparators[0])
+                except Undecided:
+                    continue
+                op = type(t.ops[0])
+                if not pol:
+                    op = {ast.Lt: ast.GtE, ast.LtE: ast.Gt, ast.Gt: ast.LtE, ast.GtE: ast.Lt}[op]
+                if op in (ast.Gt, ast.GtE):
+                    guards.append((l_ - r_, op is ast.Gt, t))
+                else:
+                    guards.append((r_ - l_, op is ast.Lt, t))
+            if tests:
+                continue
+            try:
+                sx.step(s)
+            except Undecided:
+                pass
+        facts.int_syms |= {"nbatch", "NBATCH", "SAMPLES_TAPER"}
+        env = ev.env
+        it = _run_iteration(repo, worker, env, facts, False, False)
+        S = it["stride"]
+        if isinstance(lp, ast.For):
+            try:
+                S = Evaluator(env=dict(env), facts=facts.copy(), resolve=lambda x: repo.resolve_expr(worker, x)).ev(_range_of(worker, lp)[2])
+            except Undecided as e_:
+                raise AnalysisError(f"stride of the batch range not evaluable: {e_}")
+        why = None
+        c = S.const_value()
+        if c is not None:
+            ok = c > 0
+            why = f"stride {c}"
+        else:
+            ok = False
+            for P, strict, t in guards:
+                mons = [m for m in P.t if m]
+                if not mons:
+                    continue
+                m0 = mons[0]
+                pm, sm = P.t.get(m0), S.t.get(m0)
+                if not sm or not pm:
+                    continue
+                k = sm / pm
+                if k <= 0:
+                    continue
+                rest = (S - Poly.const(k) * P).const_value()
+                if rest is None:
+                    continue
+                # P > 0 (integers: P >= 1)  ->  S = k*P + rest >= k + rest ;  P >= 0 -> S >= rest
+                low = (k if (strict and facts.is_integer(P)) else 0) + rest
+                if low > 0 or (strict and low >= 0 and not facts.is_integer(P)) or (strict and rest >= 0):
+                    ok = True
+                    why = f"`{src(t)}` gives stride = {S} > 0"
+                    break
+        results.append((given, ok, S, why))
+    for given, ok, S, why in results:
+        case = "a caller-supplied nbatch" if given else "the default batch size"
+        ctx.check(ok, outer, lp, f"{case}: {why or 'stride ' + str(S)}", "each batch starts a positive number of samples after the previous one",
+                  f"for {case} nothing establishes that the batch stride {S} is positive: with nbatch <= 2 * SAMPLES_TAPER the loop "
+                  "never reaches the end of the recording - it rewrites the same batch (or walks backwards) and appends to the output until the disk is full",
+                  key=f"progress:{'given' if given else 'default'}", name_free=True)
+
+
 def dS_shared(ctx):
     from sa.common import rule_no_shared_mutation
     rule_no_shared_mutation(ctx, "DS", ['ibldsp.voltage.decompress_destripe_cbin', 'ibldsp.voltage.decompress_destripe_cbin.my_function'],
@@ -787,3 +925,5 @@ def run(ctx):
     ctx.run(d2_sync)
     ctx.run(d3_qc)
     ctx.run(d4_fanout)
+    ctx.run(d5_closure)
+    ctx.run(d6_progress)
